@@ -272,6 +272,15 @@ func (e *Explorer) FreshCat(cat string, n int) []value {
 		}
 		run('%', 3)
 		run('"', 4)
+		// ... and do not begin or end with tag symbols, so that no tag run straddles the boundary of an opaque value
+		edge := func(sym byte, k int) {
+			for j := 0; j < k && j < n; j++ {
+				cs = append(cs, c.BNot(c.Eq(ts[j], c.Const(uint64(sym), 8))))
+				cs = append(cs, c.BNot(c.Eq(ts[n-1-j], c.Const(uint64(sym), 8))))
+			}
+		}
+		edge('%', 2)
+		edge('"', 3)
 		if len(cs) > 0 {
 			e.addPCRaw(c.BAnd(cs...))
 		}
